@@ -513,7 +513,7 @@ def parsePelFromPLID(path: str, config: Config):
             try:
                 eid, summary = parsePELSummary(stream, config)
                 if eid :
-                    if plid in summary['PLID']:
+                    if plid == "%08X" % int(summary['PLID'], 16):
                         if config.hex:
                             printPELInHexFormat(data)
                         else:
